@@ -286,7 +286,7 @@ func applyDocEdit(doc *JV, op Op) bool {
 		}
 		v := leaves[int(op.I)%len(leaves)]
 		old := v.S
-		switch op.J % 7 {
+		switch op.J % 9 {
 		case 0:
 			v.S = "  " + v.S + " "
 		case 1:
@@ -301,6 +301,19 @@ func applyDocEdit(doc *JV, op Op) bool {
 			v.S = "- " + v.S
 		case 6:
 			v.S = v.S + "\t\n"
+		case 7:
+			// the first letters typed twice (a prefix pasted in front of a value that already has it)
+			n := 2 + int(op.I/7)%2
+			if len(v.S) > n {
+				v.S = v.S[:n] + v.S
+			}
+		case 8:
+			// the last word or letters typed twice
+			if i := strings.LastIndexByte(v.S, ' '); i > 0 {
+				v.S = v.S + v.S[i:]
+			} else if len(v.S) > 3 {
+				v.S = v.S + " " + v.S[len(v.S)-3:]
+			}
 		}
 		return v.S != old
 	case "rmdefaulted":
@@ -344,6 +357,23 @@ func applyDocEdit(doc *JV, op Op) bool {
 				return true
 			}
 		}
+	case "addcat":
+		return applyAddCategory(doc, op.I, op.J)
+	case "duedates":
+		// payment terms with due dates given in percent whose amounts have sub-cent remainders
+		if doc.Get("lines") == nil || doc.Get("supplier") == nil {
+			return false
+		}
+		pay := doc.Get("payment")
+		if pay == nil || pay.K != 'o' {
+			pay = &JV{K: 'o'}
+			doc.Set("payment", pay)
+		}
+		mk := func(d, p string) *JV {
+			return &JV{K: 'o', M: []JM{{"date", JStr(d)}, {"percent", JStr(p)}}}
+		}
+		pay.Set("terms", &JV{K: 'o', M: []JM{{"key", JStr("due-date")}, {"due_dates", &JV{K: 'a', A: []*JV{mk("2031-01-31", op.S2), mk("2031-02-28", op.S2), mk("2031-03-31", "33.34%")}}}}})
+		return true
 	case "extcode":
 		return applyExtCode(doc, op.I, op.J)
 	case "graft":
@@ -463,7 +493,15 @@ func applyDocEdit(doc *JV, op Op) bool {
 	case "amountprec":
 		// fixed amounts given with more precision than the currency
 		if l := pick(); l != nil {
-			l.Set("discounts", &JV{K: 'a', A: []*JV{{K: 'o', M: []JM{{"amount", JStr(op.S2)}, {"reason", JStr("fixed")}}}}})
+			dm := []JM{{"amount", JStr(op.S2)}}
+			if op.I%3 != 0 {
+				dm = append(dm, JM{"reason", JStr("fixed")})
+			}
+			l.Set("discounts", &JV{K: 'a', A: []*JV{{K: 'o', M: dm}}})
+			if op.I%2 == 1 {
+				// the same as a charge, with and without a reason
+				l.Set("charges", &JV{K: 'a', A: []*JV{{K: 'o', M: append([]JM{}, dm...)}}})
+			}
 			pay := doc.Get("payment")
 			if pay == nil {
 				pay = &JV{K: 'o'}
@@ -493,7 +531,7 @@ func applyDocEdit(doc *JV, op Op) bool {
 	return false
 }
 
-var editKinds = []string{"qty", "price", "rmline", "dupline", "note", "rounding", "custname", "code", "breakdown", "linedisc", "linecharge", "docdisc", "advances", "codeweird", "addrweird", "taxidweird", "amountprec", "mixrates", "mixrates", "rmdefaulted", "sloppy", "sloppy", "sloppy", "inboxweird", "scenario", "scenario", "fx", "valuedate", "transplant", "transplant", "docfixed", "paykeys", "graft", "graft", "extcode", "extcode"}
+var editKinds = []string{"qty", "price", "rmline", "dupline", "note", "rounding", "custname", "code", "breakdown", "linedisc", "linecharge", "docdisc", "advances", "codeweird", "addrweird", "taxidweird", "amountprec", "mixrates", "mixrates", "rmdefaulted", "sloppy", "sloppy", "sloppy", "inboxweird", "scenario", "scenario", "fx", "valuedate", "transplant", "transplant", "docfixed", "paykeys", "graft", "graft", "extcode", "extcode", "addcat", "duedates"}
 
 func genEdit(r *rand.Rand, id int) Op {
 	k := Pick(r, editKinds)
@@ -520,11 +558,15 @@ func genEdit(r *rand.Rand, id int) Op {
 	case "addrweird":
 		op.S2 = Pick(r, []string{" 187", "(0187)", "28 002", " Madrid ", "  ", "A  B", "c/ Mayor , 1 "})
 	case "amountprec":
-		op.S2 = Pick(r, []string{"10.12345", "0.005", "1.2349", "3.14159265"})
+		op.S2 = Pick(r, []string{"10.12345", "0.005", "1.2349", "3.14159265", "0.004", "0.0001"})
 	case "rmdefaulted":
 		op.S2 = Pick(r, []string{"type", "currency", "$regime", "type", "tax"})
 	case "sloppy":
-		op.I, op.J = int64(r.IntN(1<<16)), int64(r.IntN(7))
+		op.I, op.J = int64(r.IntN(1<<16)), int64(r.IntN(9))
+	case "addcat":
+		op.I, op.J = int64(r.IntN(1<<8)), int64(r.IntN(1<<10))
+	case "duedates":
+		op.S2 = Pick(r, []string{"33.33%", "12.5%", "7.77%"})
 	case "extcode":
 		op.I, op.J = int64(r.IntN(1<<12)), int64(r.IntN(1<<12))
 	case "graft":
